@@ -165,9 +165,9 @@ def check_rules(case, out):
 @st.composite
 def scalar_cases(draw, nums=("frac",)):
     if draw(st.integers(0, 5)) == 0:
-        c = draw(gen.curves(5, 9, 1, nums=nums, rational=False, dim=0))  # high degree, at most one interior knot
+        c = draw(gen.curves(5, 9, 1, nums=nums, rational=False, dim=0, far=False))  # high degree, at most one interior knot
     else:
-        c = draw(gen.curves(0, 4, 4, nums=nums, rational=False, dim=0))
+        c = draw(gen.curves(0, 4, 4, nums=nums, rational=False, dim=0, far=False))
     fam = draw(st.sampled_from(["default", "default"] + FAMILIES))
     p = c["p"]
     k = draw(st.integers(0, 3))
